@@ -42,6 +42,7 @@ Fixpoint wf (v : gval) : bool :=
   | GSlice t fl el => forallb (fun e => has_type t e && wf e) el && (negb (Z.testbit fl 0) || match el with [] => true | _ => false end)
   | GArray t el => forallb (fun e => has_type t e && wf e) el
   | GPtr v => wf v && match dyn_type v with Some _ => true | None => false end
+  | GScalar k _ => (1 <=? k) && (k <=? 11)
   | GOther tag => (tag =? K_Chan) || (tag =? K_Func) || (tag =? K_Map) || (tag =? K_Struct)
   | _ => true
   end.
